@@ -93,7 +93,9 @@ def macro_table(chk, cfg, fn, macro=None):
     chk.ob("T-macro/reject", fn, okerr, "characters outside the table must make the macro function return Err", b["span"])
     # result order: (count, bits)
     r = oks[0].ret[4][0]
-    chk.ob("T-macro/result", fn, r[0] == "tuple" and len(r[1]) == 2 and all(x[0] == "loopvar" for x in r[1]), "must return (symbol count, bit list)", b["span"])
+    # the pair (symbol count, bit list): a tuple or a two-field struct, each component the loop's own accumulator
+    comps = r[1] if r[0] == "tuple" else (r[4] if r[0] == "agg" else ())
+    chk.ob("T-macro/result", fn, len(comps) == 2 and all(x[0] == "loopvar" for x in comps) and comps[0] != comps[1], "must return (symbol count, bit list)", b["span"])
     return table
 
 
@@ -130,8 +132,17 @@ def entry_flow(chk, cfg, macro, tablefn, ident):
             seen_gen = True
             a = g[0][1]
             okv = F(("downcast", res, 0, "Ok"), "0")
-            good = good and an.is_call(a[0], re.compile(r"^proc_macro2::Ident::new$")) and a[0][2][0] == ("str", ident) and \
-                a[2] == F(okv, 0) and (a[3] == F(okv, 1) or (a[3][0] == "call" and a[3][2] == (F(okv, 1),)))
+            def comp_of(t):
+                while isinstance(t, tuple) and t[0] == "call" and len(t[2]) == 1:
+                    t = t[2][0]          # deref / as_slice of the bit list
+                return t[2] if isinstance(t, tuple) and t[0] == "F" and t[1] == okv else None
+            okid = an.is_call(a[0], re.compile(r"^proc_macro2::Ident::new$")) and a[0][2][0] == ("str", ident)
+            if len(a) == 4:
+                # both components of the encoder's result, each exactly once
+                okres = comp_of(a[2]) is not None and comp_of(a[3]) is not None and comp_of(a[2]) != comp_of(a[3])
+            else:
+                okres = len(a) == 3 and a[2] == okv      # the result passed on whole
+            good = good and okid and okres
             good = good and show(p.ret).count("seqarray::gen_seqarray") == 1
     chk.ob("S-macro-entry", macro + "!", good and seen_gen and seen_err,
            "the macro must expand Ok((n, bits)) through gen_seqarray(%s, name, n, bits) and turn every Err into a compile error" % ident, b["span"])
